@@ -378,7 +378,9 @@ fn model(bits: usize, op: Op, args: &[V]) -> Expect {
             let (v, b) = (a(), b());
             let bad = v.is_zero() || b < BigUint::from(2u32);
             if bad {
-                is(if op == log { V::Panic } else { V::None })
+                // the property defines the checked form only (None, without panicking); what the panicking form does for
+                // value 0 or base < 2 is outside it
+                if op == log { dont_care() } else { is(V::None) }
             } else {
                 let k = log_model(&v, &b);
                 is(if op == log { V::N(k) } else { V::some(V::N(k)) }).nt(k > 0)
@@ -388,7 +390,7 @@ fn model(bits: usize, op: Op, args: &[V]) -> Expect {
             let v = a();
             let checked = matches!(op, checked_log2 | checked_log10);
             if v.is_zero() {
-                is(if checked { V::None } else { V::Panic })
+                if checked { is(V::None) } else { dont_care() }
             } else {
                 let b = BigUint::from(if matches!(op, log2 | checked_log2) { 2u32 } else { 10u32 });
                 let k = log_model(&v, &b);
@@ -399,7 +401,8 @@ fn model(bits: usize, op: Op, args: &[V]) -> Expect {
             let v = a();
             let d = args[1].as_n() as usize;
             if d == 0 {
-                return is(V::Panic);
+                // the property quantifies over degrees >= 1
+                return dont_care();
             }
             let r = root_model(&v, d);
             is(u(&r, bits)).nt(d >= 2 && r > BigUint::one())
